@@ -31,6 +31,10 @@ def gen(rng: random.Random, tier: str):
     for end in (None, 120):
         rows = [[100 + u, 1000 + i, float(rng.randint(1, 5)), rng.choice([0, 0, rng.randint(0, 200)])] for u in range(4) for i in range(4) if rng.random() < 0.7]
         yield {"kind": "temporal", "rows": rows, "seed": rng.randrange(10**6), "test_only": False, "cut": 0, "end": end, "frac": None}
+    # directed: dense consecutive integer times and a fraction whose quantile falls between two of them (an interpolated, fractional cut-off)
+    for frac in (0.5, 0.3):
+        rows = [[100 + u, 1000 + i, float(rng.randint(1, 5)), 4 * u + i] for u in range(4) for i in range(4)]
+        yield {"kind": "temporal", "rows": rows, "seed": rng.randrange(10**6), "test_only": False, "cut": 0, "end": None, "frac": frac}
 
 BASE = 1_600_000_000; STEP = 1800
 TZS = [["UTC0", 0], ["CST6", -21600], ["IST-5:30", 19800], ["LINT-14", 50400], ["<-03>3", -10800]]      # POSIX TZ strings (no tzdata needed), seconds east of UTC
